@@ -72,19 +72,23 @@ where
           if sctl_next.is_subscribed() {
             let sctl = sctl_next.clone();
             let scheduler_ctor = scheduler_ctor.clone();
-            *timer.write().unwrap() = Some(
-              observables::interval(dur, move || scheduler_ctor.call(()))
-                .take(1)
-                .subscribe(
-                  move |_| {
-                    sctl.sink_error(RxError::from_error(
-                      std::io::Error::from(std::io::ErrorKind::TimedOut),
-                    ));
-                  },
-                  junk_error!(),
-                  junk_complete!(),
-                ),
-            );
+            let armed = observables::interval(dur, move || scheduler_ctor.call(()))
+              .take(1)
+              .subscribe(
+                move |_| {
+                  sctl.sink_error(RxError::from_error(
+                    std::io::Error::from(std::io::ErrorKind::TimedOut),
+                  ));
+                },
+                junk_error!(),
+                junk_complete!(),
+              );
+            // an item arriving on another thread may have armed its own timer meanwhile:
+            // whatever is replaced here is cancelled, not just dropped
+            let replaced = timer.write().unwrap().replace(armed);
+            if let Some(replaced) = replaced {
+              replaced.unsubscribe();
+            }
             if !sctl_next.is_subscribed() {
               // the stream ended (on another thread) while the timer was being armed
               let t = timer.write().unwrap().take();
